@@ -4,7 +4,7 @@
 Every method of the tag classes talks to the tag through `self.transceive` / `self.clf.exchange`; what is translated
 are the pure statement ranges in front of that call (the command octets) and behind it (the response checks).  The
 call itself, its retry loop (C16, Model/Retry.lean) and the float timeout arithmetic are cut."""
-from translate_fn import Spec, INT, BOOL, BYTES, LIST, SET, TUP, OPT
+from translate_fn import Spec, INT, BOOL, BYTES, LIST, SET, TUP, OPT, ANY
 
 GROUP = "TagCmd"
 ORDER = 60
@@ -123,6 +123,36 @@ SPECS = [
          expr="data[(i-1)*16:(last_block-1)*16]"),
     Spec(GROUP, "t3_sys", T3, "Type3Tag.__init__", [], binds=[("target.sensf_res", "sensf_res", BYTES)],
          expr='unpack(">H", target.sensf_res[17:19])[0]', note="cut: system code from SENSF_RES (only evaluated when it has more than 17 octets)"),
+    # ---- Type 1 memory reader: which commands fill the cache (`Adv.stageA`, `stageB`)
+    Spec(GROUP, "t1_need_rall", T1, "Type1TagMemoryReader._read_from_tag", [], binds=[("len(self)", "n", INT)], expr="len(self) < 120",
+         note="cut: RALL is sent while fewer than 120 bytes are cached"),
+    Spec(GROUP, "t1_need_block15", T1, "Type1TagMemoryReader._read_from_tag", [("stop", INT)], binds=[("len(self)", "n", INT)],
+         expr="stop > 120 and len(self) < 128", note="cut: READ8 of block 15 (lock / reserved bytes 120..127)"),
+    Spec(GROUP, "t1_rall_short", T1, "Type1TagMemoryReader._read_from_tag", [("read_all_data_response", BYTES)],
+         expr="len(read_all_data_response) < 2"),
+    Spec(GROUP, "t1_rall_hdr", T1, "Type1TagMemoryReader._read_from_tag", [("read_all_data_response", BYTES)],
+         expr="read_all_data_response[0:2]", note="cut: header ROM octets of the RALL answer"),
+    Spec(GROUP, "t1_rall_mem", T1, "Type1TagMemoryReader._read_from_tag", [("read_all_data_response", BYTES)],
+         expr="read_all_data_response[2:]", note="cut: static memory octets of the RALL answer"),
+    # ---- Type 2 `protect()`: lock control TLV fields and default dynamic lock bits (`Tlv.protWalk`, `defaultLocks`, `setLocks`)
+    Spec(GROUP, "t2_lock_first", T2, "Type2Tag._protect", [("tlv_v", BYTES)], path=[(10, "body"), (3, "body")], stmts=[1, 2, 3, 4],
+         result=["lock_byte_addr"], note="cut: first lock byte address from a Lock Control TLV value"),
+    Spec(GROUP, "t2_lock_bits", T2, "Type2Tag._protect", [("tlv_v", BYTES)], expr="tlv_v[1] if tlv_v[1] > 0 else 256",
+         note="cut: number of lock bits (0 means 256)"),
+    Spec(GROUP, "t2_lock_default_cond", T2, "Type2Tag._protect", [], binds=[("tag_memory[14]", "sz", INT), ("len(lock_control)", "nlock", INT)],
+         expr="tag_memory[14] > 6 and len(lock_control) == 0", note="cut: a dynamic memory tag without Lock Control TLV"),
+    Spec(GROUP, "t2_lock_default_addr", T2, "Type2Tag._protect", [("data_area_size", INT)], expr="16 + data_area_size"),
+    Spec(GROUP, "t2_lock_default_bits", T2, "Type2Tag._protect", [("data_area_size", INT)], expr="(data_area_size - 48 + 7)//8"),
+    Spec(GROUP, "t2_lock_byte_size", T2, "Type2Tag._protect", [("lock_bits_size", INT)], expr="(lock_bits_size + 7) // 8"),
+    Spec(GROUP, "t2_lock_byte_index", T2, "Type2Tag._protect", [("lock_byte_addr", INT), ("i", INT)], nonneg=["i"], expr="lock_byte_addr+(i >> 3)"),
+    Spec(GROUP, "t2_lock_bit", T2, "Type2Tag._protect", [("i", INT)], nonneg=["i"], expr="1 << (i & 7)"),
+    # ---- NDEF writer: the 3-byte length field across write units (repair of the torn length field, C02)
+    Spec(GROUP, "t2_len_pages", T2, "Type2Tag.NDEF._write_ndef_data", [("offset", INT)], expr="[(offset + i) >> 2 for i in (1, 2, 3)]",
+         note="cut: the pages that hold the three length octets"),
+    Spec(GROUP, "t2_len_split", T2, "Type2Tag.NDEF._write_ndef_data", [("page", LIST(INT))], expr="page[0] != page[1] and page[1] == page[2]",
+         note="cut: `FF | hi lo` - the marker alone in the first page"),
+    Spec(GROUP, "t2_nlen", T2, "Type2Tag.NDEF._write_ndef_data", [("data", BYTES)], expr='bytearray(pack(">H", len(data)))',
+         note="cut: the two length octets of the long format"),
     # ---- NDEF reader: one TLV with its value collected around the reserved bytes (C08, C01)
     Spec(GROUP, "t2_read_tlv", T2, "read_tlv", [("memory", BYTES), ("offset", INT), ("skip_bytes", SET)], ret=TUP(INT, INT, OPT(BYTES)),
          note="whole function; `memory` is the cached memory image as a bytearray (a Type2TagMemoryReader fetches missing "
@@ -177,6 +207,22 @@ SPECS = [
     Spec(GROUP, "t3e_wr_data_len", T3, "Type3TagEmulation.write_without_encryption", [("block_data", BYTES)], expr="len(block_data) % 16 != 0"),
     Spec(GROUP, "t3e_wr_block", T3, "Type3TagEmulation.write_without_encryption", [("block_data", BYTES), ("i", INT)], nonneg=["i"],
          expr="block_data[i*16:(i+1)*16]", note="cut: the data of the i-th block"),
+    # ---- functions that needed int-list displays, slice assignment, tuples of different arity
+    Spec(GROUP, "t1_read_block_cmd", T1, "Type1Tag.read_block", [("block", INT)], binds=_UID, stmts=(0, 3), result=["cmd"],
+         note="cut: block number check and the READ8 command"),
+    Spec(GROUP, "t1_read_segment_cmd", T1, "Type1Tag.read_segment", [("segment", INT)], binds=_UID, stmts=(0, 3), result=["cmd"],
+         note="cut: segment number check and the RSEG command"),
+    Spec(GROUP, "t3_polling_rsp", T3, "Type3Tag.polling", [("request_code", INT), ("data", BYTES)], stmts=(6, 8), ret=ANY,
+         note="cut: the statements after `data = self.send_cmd_recv_rsp(..)`: length check and the result tuple"),
+    Spec(GROUP, "t3_wr_attr", T3, "Type3Tag.NDEF._write_attribute_data", [],
+         binds=[("attributes['%s']" % k, k, INT) for k in ("ver", "nbr", "nbw", "nmaxb", "writef", "rwflag", "ln")],
+         stmts=(1, 10), result=["attribute_data"], note="cut: the 16 octets of the attribute block; the write command is not translated"),
+    Spec(GROUP, "t3_fmt_attr", T3, "Type3Tag._format", [("version", INT), ("nbr", INT), ("nbw", INT), ("nmaxb", INT)],
+         stmts=[13, 14, 15, 16], result=["attribute_data"], note="cut: the attribute block written by `format()`"),
+    Spec(GROUP, "t3_rd_csum", T3, "Type3Tag.NDEF._read_attribute_data", [("data", BYTES)],
+         expr='sum(data[0:14]) != unpack(">H", data[14:16])[0]', note="cut: checksum test of the attribute block"),
+    Spec(GROUP, "t3_rd_attr", T3, "Type3Tag.NDEF._read_attribute_data", [("data", BYTES)], stmts=[2, 3, 4],
+         result=["ver", "nbr", "nbw", "nmaxb", "writef", "rwflag", "length"], note="cut: the attribute fields"),
 ]
 P = "NfcVerif.FnBridge.TagCmd."
 BRIDGE = {
@@ -199,15 +245,22 @@ BRIDGE = {
         "gen_block_code_model", "t3_check_rsp_bridge", "gen_check_rsp_model", "gen_check_rsp_auth",
         "gen_check_rsp_safe", "t3_read_rsp_bridge", "t3_rw_nsvc_bridge", "t3_rw_nblk_bridge", "t3_last_block_bridge",
         "t3_nbr_bridge", "t3_ln_too_big_bridge", "t3_chunk_end_bridge", "t3_wr_last_block_bridge", "t3_pad_bridge",
-        "t3_wr_chunk_bridge", "t3_sys_bridge", "le16_at", "t3e_rd_service_code_bridge", "t3e_wr_service_code_bridge",
-        "t3e_rd_block_number_bridge", "t3e_wr_block_number_bridge", "t3e_rd_service_index_bridge",
-        "t3e_wr_service_index_bridge", "t3e_rd_short_elem_bridge", "t3e_wr_short_elem_bridge", "t3e_status",
-        "t3e_rd_status_a3_bridge", "t3e_rd_status_a2_bridge", "t3e_wr_status_a3_bridge", "t3e_wr_status_a2_bridge",
-        "gen_parseBlocks_step", "t3e_rsp_frame", "t3e_read_rsp_bridge", "t3e_write_rsp_bridge",
-        "t3e_polling_rsp_bridge", "t3e_polling_bridge", "t3e_cmd_bad_len_bridge", "gen_cmd_len_model",
-        "t3e_idm_match_bridge", "t3e_wr_data_len_bridge", "t3e_wr_block_bridge", "gen_frame_eq_T3Emu",
-        "gen_block_code_T3Emu", "t1_place_bridge", "t1_term_bridge", "t2_term_bridge", "t2_place_bridge",
-        "gen_t2_phase2", "t2_read_tlv_bridge", "readTlvRef_ok", "gen_t1_phase2")],
+        "t3_wr_chunk_bridge", "t3_sys_bridge", "t1_read_block_cmd_bridge", "t1_read_segment_cmd_bridge",
+        "gen_segLoop", "gen_stageB_cmd", "t3_polling_rsp_bridge", "gen_polling_parts", "t3_wr_attr_bridge",
+        "t3_fmt_attr_bridge", "t3_rd_attr_bridge", "t3_rd_csum_short", "t1_need_rall_bridge",
+        "t1_need_block15_bridge", "t1_rall_short_bridge", "t1_rall_hdr_bridge", "t1_rall_mem_bridge", "gen_stageA",
+        "gen_stageB_cond", "t2_lock_first_bridge", "t2_lock_bits_bridge", "t2_lock_default_cond_bridge",
+        "t2_lock_default_addr_bridge", "t2_lock_default_bits_bridge", "gen_defaultLocks", "t2_lock_byte_size_bridge",
+        "t2_lock_byte_index_bridge", "t2_lock_bit_bridge", "le16_at", "t3e_rd_service_code_bridge",
+        "t3e_wr_service_code_bridge", "t3e_rd_block_number_bridge", "t3e_wr_block_number_bridge",
+        "t3e_rd_service_index_bridge", "t3e_wr_service_index_bridge", "t3e_rd_short_elem_bridge",
+        "t3e_wr_short_elem_bridge", "t3e_status", "t3e_rd_status_a3_bridge", "t3e_rd_status_a2_bridge",
+        "t3e_wr_status_a3_bridge", "t3e_wr_status_a2_bridge", "gen_parseBlocks_step", "t3e_rsp_frame",
+        "t3e_read_rsp_bridge", "t3e_write_rsp_bridge", "t3e_polling_rsp_bridge", "t3e_polling_bridge",
+        "t3e_cmd_bad_len_bridge", "gen_cmd_len_model", "t3e_idm_match_bridge", "t3e_wr_data_len_bridge",
+        "t3e_wr_block_bridge", "gen_frame_eq_T3Emu", "gen_block_code_T3Emu", "t1_place_bridge", "t1_term_bridge",
+        "t2_term_bridge", "t2_place_bridge", "gen_t2_phase2", "t2_len_pages_bridge", "t2_len_split_bridge",
+        "gen_phase3a_split", "t2_nlen_bridge", "t2_read_tlv_bridge", "readTlvRef_ok", "gen_t1_phase2")],
     "properties": ["C16", "C08", "C01", "C02", "C03", "C07"],
 }
 
@@ -337,6 +390,49 @@ def inputs(rng, sp):
             out.append(([d, i, i + rng.randrange(0, 5)], []))
     if n in ("t3_pad", "t3_wr_last_block"):
         out += [([_b(rng, k)], []) for k in (0, 1, 15, 16, 17, 31, 32, 33, 47, 48)]
+    if n == "t1_need_rall":
+        out += [([], [v]) for v in (0, 1, 119, 120, 121, 127, 128, 512)]
+    if n == "t1_need_block15":
+        out += [([st], [v]) for st in (1, 120, 121, 128, 129, 512) for v in (0, 119, 120, 127, 128, 256)]
+    if n in ("t1_rall_short", "t1_rall_hdr", "t1_rall_mem"):
+        out += [([_b(rng, k)], []) for k in (0, 1, 2, 3, 122)]
+    if n in ("t2_lock_first", "t2_lock_bits"):
+        out += [([bytes([a, b, c])], []) for a in (0x00, 0x0F, 0xA0, 0xE8, 0xFF) for b in (0, 1, 16, 255) for c in (0x00, 0x33, 0x44, 0x0F, 0xFF)]
+        out += [([_b(rng, k)], []) for k in (0, 1, 2)]
+    if n == "t2_lock_default_cond":
+        out += [([], [a, b]) for a in (0, 5, 6, 7, 18, 255) for b in (0, 1, 2)]
+    if n in ("t2_lock_default_addr", "t2_lock_default_bits", "t2_lock_byte_size"):
+        out += [([v], []) for v in (0, 1, 7, 8, 9, 40, 48, 49, 56, 57, 64, 144, 256, 2040)]
+    if n == "t2_lock_byte_index":
+        out += [([a, i], []) for a in (40, 160, 2056) for i in (0, 1, 7, 8, 9, 15, 16, 255)]
+    if n == "t2_lock_bit":
+        out += [([i], []) for i in range(0, 20)]
+    if n == "t2_len_pages":
+        out += [([v], []) for v in range(14, 40)]
+    if n == "t2_len_split":
+        out += [([[a, b, c]], []) for a in (4, 5) for b in (4, 5, 6) for c in (4, 5, 6, 7)] + [([[1, 2]], []), ([[]], [])]
+    if n == "t2_nlen":
+        out += [([_b(rng, k)], []) for k in (0, 1, 254, 255, 256, 300, 1000)]
+    if n in ("t1_read_block_cmd", "t1_read_segment_cmd"):
+        out += [([v], [_b(rng, rng.choice([4, 4, 0, 7]))]) for v in (-1, 0, 1, 14, 15, 16, 17, 127, 255, 256)]
+    if n == "t3_polling_rsp":
+        out += [([r, _b(rng, k)], []) for r in (-1, 0, 1, 2, 3) for k in (0, 15, 16, 17, 18, 19)]
+    if n == "t3_wr_attr":
+        for _ in range(80):
+            out.append(([], [rng.choice([0x10, 0x11, 0, 255, 256]), rng.choice([0, 4, 15, 255, 256]), rng.choice([0, 1, 13, 255]),
+                             rng.choice([0, 13, 255, 256, 65535, 65536]), rng.choice([0, 0x0F, 255, 256]), rng.choice([0, 1, 255]),
+                             rng.choice([0, 1, 255, 256, 65535, 65536, 0xFFFFFF, 0x1000000, 2 ** 32 - 1, 2 ** 32])]))
+    if n == "t3_fmt_attr":
+        for _ in range(60):
+            out.append(([rng.choice([0x10, 0x1F, 0, 255, 256]), rng.choice([0, 4, 15]), rng.choice([0, 1, 12, 13]),
+                         rng.choice([0, 13, 255, 256, 65535, 65536])], []))
+    if n in ("t3_rd_csum", "t3_rd_attr"):
+        for _ in range(80):
+            d = bytearray(_b(rng, 16))
+            if rng.random() < 0.6:
+                c = sum(d[0:14])
+                d[14], d[15] = c >> 8, c & 255
+            out.append(([bytes(d[:rng.choice([16, 16, 16, 15, 14, 11, 5, 0])])], []))
     if n == "t2_read_tlv":
         for _ in range(150):
             size = rng.choice([48, 64, 96])
@@ -445,6 +541,24 @@ MUTATIONS = [
     ("t2_read_tlv", "long length byte order", 'unpack(">H", memory[offset:offset+2])[0], offset+2)', 'unpack("<H", memory[offset:offset+2])[0], offset+2)'),
     ("t2_read_tlv", "reserved bytes read as value", "while (offset + i) in skip_bytes:\n            offset += 1\n        tlv_v[i] = memory[offset+i]",
      "while (offset + i + 1) in skip_bytes:\n            offset += 1\n        tlv_v[i] = memory[offset+i]"),
+    ("t1_need_block15", "block 15 read one byte early", "stop > 120 and len(self) < 128", "stop >= 120 and len(self) < 128"),
+    ("t1_rall_mem", "header ROM counted as memory", "read_all_data_response[2:]", "read_all_data_response[1:]"),
+    ("t2_lock_first", "page address shift", "page_addr = tlv_v[0] >> 4\n                byte_offs", "page_addr = tlv_v[0] >> 3\n                byte_offs"),
+    ("t2_lock_bits", "zero means 256 lock bits", "tlv_v[1] if tlv_v[1] > 0 else 256", "tlv_v[1] if tlv_v[1] > 0 else 255"),
+    ("t2_lock_default_bits", "default lock bits rounding", "(data_area_size - 48 + 7)//8", "(data_area_size - 48)//8"),
+    ("t2_lock_default_cond", "static memory limit", "tag_memory[14] > 6 and len(lock_control) == 0", "tag_memory[14] >= 6 and len(lock_control) == 0"),
+    ("t2_lock_bit", "bit position", "1 << (i & 7)", "1 << (i & 3)"),
+    ("t2_len_pages", "page size of the length field test", "[(offset + i) >> 2 for i in (1, 2, 3)]", "[(offset + i) >> 3 for i in (1, 2, 3)]"),
+    ("t2_len_split", "torn length field case", "page[0] != page[1] and page[1] == page[2]", "page[0] != page[1] and page[1] != page[2]"),
+    ("t2_nlen", "length byte order", 'bytearray(pack(">H", len(data)))', 'bytearray(pack("<H", len(data)))'),
+    ("t1_read_block_cmd", "READ8 padding length", "[0x00 for _ in range(8)]", "[0x00 for _ in range(7)]"),
+    ("t1_read_segment_cmd", "segment nibble position", "segment << 4", "segment << 3"),
+    ("t3_polling_rsp", "PMm slice", "data[8:16]) if len(data) == 16", "data[8:15]) if len(data) == 16"),
+    ("t3_wr_attr", "checksum range", "sum(attribute_data[0:14])", "sum(attribute_data[0:13])"),
+    ("t3_wr_attr", "Ln octets", "pack('>I', attributes['ln'])[1:4]", "pack('>I', attributes['ln'])[0:3]"),
+    ("t3_fmt_attr", "RWFlag of a read-only tag", "0x01 if nbw > 0 else 0x00", "0x01 if nbw >= 0 else 0x00"),
+    ("t3_rd_csum", "checksum position", 'unpack(">H", data[14:16])[0]:', 'unpack(">H", data[13:15])[0]:'),
+    ("t3_rd_attr", "Ln position", 'b"\\x00" + data[11:14]', 'b"\\x00" + data[10:13]'),
     ("t1_term", "terminator beyond the data area", "while offset < tag_memory_size:", "while offset <= tag_memory_size:"),
     ("t1_term", "terminator value", "tag_memory[offset] = 0xFE\n                    break", "tag_memory[offset] = 0xFD\n                    break"),
     ("t2_term", "terminator at the end of the area", "if offset < tag_memory[14] * 8 + 16:", "if offset <= tag_memory[14] * 8 + 16:"),
